@@ -13,6 +13,8 @@ pub enum Op {
     Reset,
     /// every slot is offered the value, in ascending (true) or descending slot order
     Fill(F, bool),
+    /// consecutive offers to the slots k, k + 65536, k + 2*65536, ... (below m), with non-decreasing values
+    Stride(u16, F),
 }
 
 #[derive(Clone, Debug, Serialize, Deserialize)]
@@ -46,7 +48,7 @@ fn m_strategy(max_m: usize) -> impl Strategy<Value = usize> {
 
 /// large trackers (tree depth above 16) driven mostly by whole-array fills, so that the maximum actually moves
 fn big_strategy() -> impl Strategy<Value = Case> {
-    (prop::sample::select(vec![32_767usize, 32_768, 32_769, 40_000, 65_535, 65_536, 65_537, 100_003]), prop::collection::vec(prop_oneof![3 => (value_strategy(), any::<bool>()).prop_map(|(v, a)| Op::Fill(v, a)), 2 => (any::<u16>(), value_strategy()).prop_map(|(s, v)| Op::Update(s, v)), 1 => Just(Op::Reset)], 1..7))
+    (prop::sample::select(vec![32_767usize, 32_768, 32_769, 40_000, 65_535, 65_536, 65_537, 100_003, 131_073, 140_000]), prop::collection::vec(prop_oneof![3 => (value_strategy(), any::<bool>()).prop_map(|(v, a)| Op::Fill(v, a)), 2 => (any::<u16>(), value_strategy()).prop_map(|(s, v)| Op::Update(s, v)), 2 => (any::<u16>(), value_strategy()).prop_map(|(s, v)| Op::Stride(s, v)), 1 => Just(Op::Reset)], 1..7))
         .prop_map(|(m, ops)| Case { m, ops })
 }
 
@@ -109,6 +111,20 @@ pub fn eval(c: &Case) -> Eval {
                 dirty = false;
                 model.fill(f64::MAX);
                 t.reset();
+            }
+            Op::Stride(sel, v) => {
+                let mut k = idx16(*sel, m.min(65536));
+                let mut val = v.0;
+                while k < m {
+                    if val < model[k] {
+                        improving += 1;
+                        model[k] = val;
+                    }
+                    t.update(k, val);
+                    k += 65536;
+                    val = next_up(val);
+                }
+                dirty = true;
             }
             Op::Fill(v, asc) => {
                 let v = v.0;
